@@ -35,7 +35,7 @@ def run(pm, ctx):
     ctx.rule("C11-c", "affinity-related hyper-parameters have a single point of use", floor=8)
     ctx.rule("C11-d", "a precomputed matrix given as y must reach every affinity computation", floor=8)
     ctx.rule("C11-e", "option names are compared by value: an identity test on a string depends on interning (an unpickled estimator, a name read "
-             "from a file or built at run time is equal but not identical)", floor=10)
+             "from a file or built at run time is equal but not identical)", floor=5)
     n_cmp = 0
     for u in pm.units.values():
         consts = {k for k, v in getattr(u, "assigns", {}).items() if isinstance(v, ast.Constant) and isinstance(v.value, str)}
@@ -295,26 +295,42 @@ def check_dispatch(ctx, ci, f, hp, hpp, pfun, second):
 
 
 def check_kauri_kernel(ctx, kauri, f):
+    """judged on the outcomes of the function path by path (flow.return_cases): guard clauses, nested if/else or a result variable
+    returned at the end are the same function"""
+    from ..flow import return_cases, NotLoopFree
+    from ..match import canon_equal
     unit, qn = kauri.unit, "Kauri._compute_kernel"
-    pre = [s for s in ast.walk(f) if isinstance(s, ast.If) and norm_src(s.test) == "self.kernel == 'precomputed'"]
-    if not pre:
+    try:
+        cases = return_cases(f)
+    except NotLoopFree as e:
+        ctx.unrecognised("C11-b", qn, f"the kernel dispatch is not a loop-free function ({e})")
+        return
+    PRE = "self.kernel == 'precomputed'"
+    if not any(t == PRE for _, _, lits in cases for t, _ in lits):
         ctx.unrecognised("C11-b", qn, "no `self.kernel == 'precomputed'` branch")
         return
-    p = pre[0]
-    inner = [s for s in p.body if isinstance(s, ast.If) and norm_src(s.test) == "y is None"]
     site = f"{qn}: missing precomputed matrix"
-    if inner and inner[0].body and isinstance(inner[0].body[-1], ast.Raise):
+    missing = [c for c in cases if (PRE, True) in c[2] and ("y is None", True) in c[2]]
+    undecided_y = [c for c in cases if (PRE, True) in c[2] and not any(t == "y is None" for t, _ in c[2])]
+    if missing and all(k == "raise" for k, _, _ in missing) and not undecided_y:
         ctx.ok("C11-b", site, "raises")
+    elif not missing and not undecided_y:
+        ctx.unrecognised("C11-b", site, "no path for a precomputed kernel without a matrix")
     else:
-        st = inner[0].body[0] if inner and inner[0].body else p
+        bad = next((c for c in missing if c[0] != "raise"), (missing or undecided_y)[0])
         ctx.violation("C11-b", unit.relpath, qn, "kernel == 'precomputed' and y is None", "a missing precomputed kernel is not an error: the model is silently "
-                      "fitted with another kernel", line=st.lineno, site=site)
-    uses_y = any(isinstance(s, ast.Assign) and norm_src(s) == "kernel = y" for s in ast.walk(p))
-    named = [n for n in ast.walk(ast.Module(body=p.orelse, type_ignores=[])) if isinstance(n, ast.Call) and call_name(n) == "pairwise_kernels"]
-    if uses_y and len(named) == 1 and [norm_src(a) for a in named[0].args] == ["X"] and {k.arg: norm_src(k.value) for k in named[0].keywords} == {"metric": "self.kernel"}:
+                      f"fitted with another kernel ({'returns ' + norm_src(bad[1])[:60] if bad[1] is not None else 'no error raised'})", line=f.lineno, site=site)
+    given = [c for c in cases if (PRE, True) in c[2] and ("y is None", False) in c[2]]
+    named = [c for c in cases if (PRE, False) in c[2]]
+    probs = []
+    if not given or any(k != "return" or v is None or norm_src(v) != "y" for k, v, _ in given):
+        probs.append("with a precomputed kernel the matrix returned is not y itself" + (f" but {norm_src(given[0][1])[:60]}" if given and given[0][1] is not None else ""))
+    if not named or any(k != "return" or v is None or not canon_equal(v, "pairwise_kernels(X, metric=self.kernel)") for k, v, _ in named):
+        probs.append("a named kernel is not computed by pairwise_kernels(X, metric=self.kernel)" + (f" but {norm_src(named[0][1])[:60]}" if named and named[0][1] is not None else ""))
+    if not probs:
         ctx.ok("C11-b", f"{qn}: precomputed -> y itself; named -> pairwise_kernels(X, metric=self.kernel)")
     else:
-        ctx.violation("C11-b", unit.relpath, qn, norm_src(named[0]) if named else "dispatch", "the kernel is not y (precomputed) / pairwise_kernels(X, metric=self.kernel)",
+        ctx.violation("C11-b", unit.relpath, qn, "dispatch", "the kernel is not y (precomputed) / pairwise_kernels(X, metric=self.kernel): " + "; ".join(probs),
                       line=f.lineno, site=f"{qn}: dispatch")
 
 
